@@ -47,8 +47,13 @@ fn text(b: &[u8]) -> Result<&str, String> {
     std::str::from_utf8(b).map_err(|_| "harness: input is not UTF-8 (not a possible &str)".to_string())
 }
 
+/// canonical JSON of a value: through `serde_json::Value`, so that two equal values give equal
+/// bytes whatever the order in which their keys were written
 pub fn json<T: Serialize>(t: &T) -> Vec<u8> {
-    serde_json::to_vec(t).unwrap_or_else(|e| format!("unencodable: {e}").into_bytes())
+    match serde_json::to_value(t) {
+        Ok(v) => serde_json::to_vec(&v).expect("value to json"),
+        Err(e) => format!("unencodable: {e}").into_bytes(),
+    }
 }
 
 fn bytes_of<T>(r: anyhow::Result<Vec<u8>>, _t: &T) -> Vec<u8> {
